@@ -22,15 +22,15 @@ Print Assumptions C18_init_refines.
 
 (** EVERY split function of the source (regenerated on every run into gen/SplitFns.v: sync and async, heap and stack, also the ones that only
     exist without the `alloc` feature) creates producer and consumer, sets exactly the liveness bits of the iterators it creates and - when it
-    borrows the buffer and can therefore be repeated - resets all three published indices; such a function does to the buffer exactly what the
-    Model's [do_split] does *)
+    can be reached by a buffer that was split before: every [&mut self] split, and every by-value split whose impl is not restricted to heap
+    storage (F11) - resets all three published indices; such a function does to the buffer exactly what the Model's [do_split] does *)
 Require MRB.Model.Splits MRB.Proofs.SplitFacts MRB.gen.SplitFns.
 Theorem C18_splits_source : forallb Splits.split_ok SplitFns.splits = true /\ SplitFns.extractor_clean = true.
 Proof. vm_compute. split; reflexivity. Qed.
 Print Assumptions C18_splits_source.
 
 Theorem C18_split_is_model_split :
-  forall f, In f SplitFns.splits -> forall s, (Splits.sp_borrow f = false -> Seq.pub s = Types.mkTri 0 0 0) ->
+  forall f, In f SplitFns.splits -> forall s, (Splits.sp_borrow f = false -> Splits.sp_heap_only f = true -> Seq.pub s = Types.mkTri 0 0 0) ->
   Splits.apply_split f s = Seq.do_split (Splits.sp_worker f) s.
 Proof. exact (SplitFacts.all_ok_are_do_split SplitFns.splits (proj1 C18_splits_source)). Qed.
 Print Assumptions C18_split_is_model_split.
